@@ -149,4 +149,31 @@ def runH (grow : Nat → Nat → Nat) (o : List Cell → Nat × Bool) (width : N
   | none => none
   | some (h, ls) => some (ls.map (fun p => read h p.1), arrOf h 0)
 
+/-! ### richtext.HardwrapScanner on the heap -/
+
+/-- The fields of `HardwrapScanner`. -/
+structure HSt where
+  cells : Slice
+  line : Slice
+deriving Repr
+
+/-- `for i, cell := range h.cells { if HasTrailingLineBreak(cell) { if i == len-1 { break }; h.cells = h.cells[i+1:];
+return true }; h.line = append(h.line, cell) }; h.cells = []vaxis.Cell{}; return true` — `i` = index, `n` = iterations
+left; `cell` is loaded from the heap at iteration `i`. -/
+def hardLoopH (grow : Nat → Nat → Nat) (cells : Slice) : Nat → Nat → Heap → Slice → Heap × HSt
+  | _, 0, h, line => (h, ⟨emptySlice, line⟩)
+  | i, n + 1, h, line =>
+    let c := (arrOf h cells.arr).getD (cells.off + i) default
+    if c.nl then
+      if i + 1 == cells.len then (h, ⟨emptySlice, line⟩)          -- break; h.cells = []vaxis.Cell{}
+      else (h, ⟨sub cells (i + 1) cells.len, line⟩)               -- h.cells = h.cells[i+1:]
+    else
+      let r := append grow h line [c]
+      hardLoopH grow cells (i + 1) n r.1 r.2
+
+/-- `HardwrapScanner.Scan()`; `none` = returned false. -/
+def hardScanH (grow : Nat → Nat → Nat) (h : Heap) (st : HSt) : Option (Heap × HSt) :=
+  if st.cells.len == 0 then none
+  else some (hardLoopH grow st.cells 0 st.cells.len h emptySlice)   -- h.line = []vaxis.Cell{}
+
 end VaxisModel.Model.WrapHeap
